@@ -26,12 +26,11 @@ def sh(cmd, **kw):
 def scratch_copy(patch):
     d = tempfile.mkdtemp(prefix="gwfmut-", dir="/dev/shm")
     sh(f"git -C /repo archive HEAD | tar -x -C {d}")
-    r = sh(f"cd {d} && git apply --verbose {patch}")
+    # strict application only: `patch --fuzz` once placed a hunk into the wrong function without complaint
+    r = sh(f"cd {d} && git init -q . && git apply --verbose {patch}")
     if r.returncode != 0:
-        r2 = sh(f"cd {d} && patch -p1 --fuzz=3 < {patch}")
-        if r2.returncode != 0:
-            shutil.rmtree(d)
-            raise SystemExit(f"patch does not apply:\n{r.stderr}\n{r2.stdout}{r2.stderr}")
+        shutil.rmtree(d)
+        raise SystemExit(f"patch does not apply:\n{r.stderr}")
     return d
 
 
